@@ -190,14 +190,23 @@ def check(pid, tier, seed, workers=None, out=sys.stdout):
         "wall_s": round(wall, 3),
         "violations": int(n_unknown),
     }
-    os.makedirs(EVID, exist_ok=True)
-    with open(os.path.join(EVID, f"{pid}.json"), "w") as f:
-        json.dump(evidence, f, indent=1)
+    # runs against another source tree (VERIF_REPO_SRC: scratch worktrees with a seeded change
+    # applied) must not overwrite the evidence of /repo
+    alt = os.environ.get("VERIF_REPO_SRC")
+    evid_dir = EVID if not alt or os.path.realpath(alt) == "/repo/src" else \
+        os.path.join("/tmp", "verif-evidence-other-tree")
+    os.makedirs(evid_dir, exist_ok=True)
     fam = total.get("fam", {})
     evidence["coverage"]["families"] = {k: {"executions": v[0], "cpu_s": round(v[1], 1)}
                                         for k, v in sorted(fam.items())}
-    with open(os.path.join(EVID, f"{pid}.json"), "w") as f:
+    with open(os.path.join(evid_dir, f"{pid}.json"), "w") as f:
         json.dump(evidence, f, indent=1)
+    if tier == "thorough" and evid_dir == EVID:
+        # the per-property file holds the latest run; keep the last thorough run beside it
+        tdir = os.path.join(ROOT, "evidence_thorough")
+        os.makedirs(tdir, exist_ok=True)
+        with open(os.path.join(tdir, f"{pid}.json"), "w") as f:
+            json.dump(evidence, f, indent=1)
     if os.environ.get("VERIF_VERBOSE"):
         for k, v in sorted(fam.items(), key=lambda kv: -kv[1][1]):
             print(f"   family {k}: executions={v[0]} cpu={v[1]:.1f}s", file=out)
